@@ -263,7 +263,17 @@ def check_last(hist, text):
     a = build(hist)
     pre = a.snapshot()
     premod = a.kl._module
-    b = fresh_copy(a)
+    try:
+        b = fresh_copy(a)
+    except runner.HarnessError as e:
+        # The variable state holds a function that no statement of the history defines: it sits in a call frame that an
+        # earlier statement left on the scope stack (reported there as frame-left-behind).  Nothing can be compared.
+        if not any(isinstance(v, KGFn) and k == KGSym('.f') for fr in a.frames() for k, v in fr.items()):
+            raise
+        return [dict(key=' ; '.join(list(hist) + [text]) + ' @pre-state', observed='a call frame (with .f) is still on the scope stack '
+                     'before the statement: %s' % e, expected='call frames end with their call',
+                     case={'history': list(hist), 'op': text, 'what': 'pre-state'}, snippet=None, group='frame-left-behind')], \
+            {'ra': ('exc', 'unjudged'), 'post': pre, 'hit': False}
     if b.snapshot() != pre:
         raise runner.HarnessError('fresh copy differs from the pre-state: %r' % (list(hist),))
     # cells exempt from the frame condition: bound to the dictionary a documented in-place operation updates
@@ -306,6 +316,9 @@ def check_last(hist, text):
                          group=classify(what, history, text, observed)))
 
     ok_a, ok_b = ra[0] == 'ok', rb[0] == 'ok'
+    if not ok_a and len(post_a[2]) > len(pre[2]):
+        add('frame-left-behind', 'the statement raised %s and left %d scope(s) more on the stack than before: %s'
+            % (ra[1], len(post_a[2]) - len(pre[2]), repr(post_a[2][len(pre[2]):])[:200]), 'a failed statement leaves the scope stack as it was')
     if ok_a != ok_b or (ok_a and ra != rb):
         add('result', _show_out(ra), _show_out(rb))
     if post_a != post_b:
